@@ -1,9 +1,14 @@
 #![allow(dead_code)]
 mod bigint;
 mod c05;
+mod c08;
 mod c10;
 mod c11;
 mod c12;
+mod c17;
+mod c18;
+mod c19;
+mod entry;
 mod gen;
 mod json;
 mod lin;
@@ -45,6 +50,13 @@ fn main() {
         "selftest" => selftest::run(&cfg),
         "c12" => c12::run(&cfg),
         "c11" => c11::run(&cfg),
+        "c08" => c08::run(&cfg),
+        "c17" => c17::run(&cfg),
+        "c18" => c18::run(&cfg),
+        "c19" => c19::run(&cfg),
+        "c09" => entry::run(&cfg, "C09"),
+        "c13" => entry::run(&cfg, "C13"),
+        "c14" => entry::run(&cfg, "C14"),
         "c10" => c10::run(&cfg),
         "c05" => c05::run(&cfg),
         "c02" => spl::run_c02(&cfg),
